@@ -382,6 +382,16 @@ func (f *FnVC) applyContract(ct *Contract, callee *ssa.Function, sig *types.Sign
 	if ct.Pure {
 		res := f.pureApp(ct, args, sig)
 		f.bindResults(v, sig, res, nil)
+		if ct.Fresh && len(res) > 0 {
+			// a pure function returning new memory: the reference was not allocated at function entry (the same
+			// application always denotes the same reference, so the bound is relative to entry, not to this call)
+			r := res[0].T
+			if res[0].Sort == sliceSort {
+				r = "(s_ref " + r + ")"
+			}
+			f.bumpNextref()
+			f.gfact(sAnd("(>= "+r+" "+f.root.get("$nextref")+")", "(< "+r+" "+f.st.get("$nextref")+")", "(> "+r+" 0)"))
+		}
 		f.assumeExternEnsures(ct, args, res, f.st)
 		return
 	}
